@@ -146,6 +146,9 @@ def check_bytes(case):
     flag = case["flag"]
     preimage = case["preimage"]
     msg = bx(case["msg"])
+    if case.get("tail"):
+        # a plain message that already ends the way a pre-image does (the 4-byte hash type): still only a message
+        msg = msg + flag.to_bytes(4, "little")
     if preimage:
         msg = msg + flag.to_bytes(4, "little")
     z = _digest(msg, flag, preimage)
@@ -258,6 +261,8 @@ def check_bytes(case):
     want = pt is not None and vals is not None and ec.ecdsa_verify(pt, z2, vals[0], vals[1])
     cls = ["mut:" + label, "nt:expect-accept" if (want and kind != "none") else ("expect-accept" if want else "nt:expect-reject")]
     cls.append("preimage" if preimage else "plain")
+    if case.get("tail") and not preimage:
+        cls.append("nt:plain-msg-ends-in-its-hash-type")
     if tot and rs is not None and len(der.encode(*rs)) == tot:
         cls.append(f"nt:der-length-{tot}")
     if edge:
@@ -403,6 +408,7 @@ def bytes_cases(draw):
         "prime": draw(st.booleans()) or kind == "pk-prefix",
         "edge": draw(st.sampled_from([False, False, False, True])),
         "der_total": draw(st.sampled_from([None, None, None, None, 63, 64, 64, 65])),
+        "tail": draw(st.integers(0, 7)) == 0,
     }
 
 
@@ -442,7 +448,7 @@ def targets(tier):
                required=["mut:s->n-s", "mut:z+n", "mut:u1G+u2P=infinity", "mut:other-key", "mut:aliased-key", "nt:expect-accept", "nt:expect-reject", "mut:flip-px"]),
         Target("sigverify-bytes", check_bytes, strategy=lambda tier: bytes_cases(), budget={"quick": 800, "thorough": 10000},
                required=["mut:der-struct", "mut:der-value", "mut:pk-hybrid", "mut:pk-prefix", "mut:pk-len-otherform", "mut:flag", "mut:msg", "mut:u1G+u2P=infinity", "mut:forged-under-x0-key", "nt:expect-accept", "nt:expect-reject", "nt:nonstandard-sighash-byte-00",
-                         "nt:key-bytes-with-whitespace-or-nul-at-an-end", "mut:pk-len-ext-ws", "nt:der-length-64", "nt:der-length-63"]),
+                         "nt:key-bytes-with-whitespace-or-nul-at-an-end", "mut:pk-len-ext-ws", "nt:der-length-64", "nt:der-length-63", "nt:plain-msg-ends-in-its-hash-type"]),
         Target("low-s", check_lows, strategy=lambda tier: lows_cases(), budget={"quick": 3000, "thorough": 40000},
                required=["nt:complement-short", "nt:complement-short-topbit", "nt:s-at-half", "nt:verified"]),
         Target("small-curve", check_small, enumerate_=enum_small, exhaustive=True),
